@@ -244,6 +244,9 @@ pub enum Op {
     RemoveScriptDataHash,
     /// `set_certs` with the key-credential certificates added so far (deprecated entry point)
     SetCertsLegacy,
+    /// `set_certs` with the key-credential certificates added so far followed by this one, which
+    /// the old setter refuses when it needs a script witness (F4: a failed call must change nothing)
+    SetCertsLegacyWith(CertSpec),
     /// `set_withdrawals` with the key withdrawals added so far (deprecated entry point)
     SetWithdrawalsLegacy,
     /// deprecated `add_mint_asset` / `set_mint_asset` with an inline native policy
